@@ -132,7 +132,7 @@ def int_types(doc_type, dest_kind, negative, codes):
 
 def structure(doc_type, nmembers, commissioning="both"):
     od = C.odmod().ObjectDictionary()
-    od.comments = "exported by the harness\nsecond line = with equals"
+    od.comments = "exported by the harness\nsecond line = with equals" + "".join("\ncomment line %d" % i for i in range(3, 13))
     di = od.device_information
     di.vendor_name, di.product_name, di.order_code = "ACME = motors", "Drive 100%", "X-1"
     di.vendor_number = sx.fresh_int("vendor", 0, 0xFFFFFFFF)
